@@ -106,13 +106,18 @@ static void blk_zero_header(sqfs_block_t *b)
 	b->user = NULL;
 }
 
-static int nd_failure(const char *tag)
+static int nd_nonzero(const char *tag)
 {
 	int e = verif_nd_int(tag);
 
 	VERIF_ASSUME(e != 0);
-	g_faults += 1;
 	return e;
+}
+
+static int nd_failure(const char *tag)
+{
+	g_faults += 1;
+	return nd_nonzero(tag);
 }
 
 #ifdef W14_BP_CALLER_STUBS
@@ -148,6 +153,10 @@ int c01_enqueue_block(sqfs_block_processor_t *proc, sqfs_block_t *blk)
 {
 	VERIF_ASSERT(proc == &g_p.proc && blk == &g_blk.b && g_live &&
 		     blk->size <= BS, "C01.bp.enqueue_block.pre");
+	/* a fragment block whose in-flight copy cannot be allocated stays with
+	 * the caller (w14_bp_enqueue.c); the front end never hands one over */
+	VERIF_ASSERT(!(blk->flags & SQFS_BLK_FRAGMENT_BLOCK),
+		     "C01.bp.enqueue_block.pre");
 	W14_ENQ_MONITOR(blk);
 	g_live = 0;		/* the pool (or the free list) has it now */
 	if (g_submitted < 0xFFFFFFFFu)
